@@ -11,6 +11,7 @@ func views() map[string]View {
 		"hash":    hashView{},
 		"cdecode": newCDecodeView(),
 		"sim":     newSimView(),
+		"route":   newRouteView(),
 	}
 }
 
